@@ -593,7 +593,7 @@ int yr_object_copy(YR_OBJECT* object, YR_OBJECT** object_copy)
 
       FAIL_ON_ERROR_WITH_CLEANUP(yr_object_structure_set_member(copy, o),
                                  // cleanup
-                                 yr_free(o);
+                                 yr_object_destroy(o);
                                  yr_object_destroy(copy));
 
       structure_member = structure_member->next;
@@ -688,8 +688,14 @@ YR_API YR_OBJECT* yr_object_array_get_item(YR_OBJECT* object, int flags,
   {
     yr_object_copy(array->prototype_item, &result);
 
-    if (result != NULL)
-      yr_object_array_set_item(object, result, index);
+    if (result != NULL &&
+        yr_object_array_set_item(object, result, index) != ERROR_SUCCESS)
+    {
+      // The item could not be attached to the array, don't hand out (and
+      // leak) an orphan object.
+      yr_object_destroy(result);
+      result = NULL;
+    }
   }
 
   return result;
@@ -775,8 +781,12 @@ YR_OBJECT* yr_object_dict_get_item(
   {
     yr_object_copy(dict->prototype_item, &result);
 
-    if (result != NULL)
-      yr_object_dict_set_item(object, result, key);
+    if (result != NULL &&
+        yr_object_dict_set_item(object, result, key) != ERROR_SUCCESS)
+    {
+      yr_object_destroy(result);
+      result = NULL;
+    }
   }
 
   return result;
